@@ -24,7 +24,7 @@ from minecraft.networking.connection import Connection, ConnectionContext, Netwo
 from minecraft.networking.packets import Packet
 
 from pyvc.driver import Unit, REPO
-from pyvc.values import And, Or, Not
+from pyvc.values import And, Or, Not, Unsupported
 from pyvc.interp import PyRaise
 from pyvc.loops import LoopSpec
 from pyvc.models import GhostLock
@@ -177,7 +177,7 @@ class DisconnectFlush(Unit):
     def setup(self, I):
         keys = loop_keys(raw(Connection, 'disconnect'), C_ + 'disconnect', kind=ast.While)
         if len(keys) != 1:
-            raise RuntimeError('disconnect no longer has exactly one loop')
+            raise Unsupported('contract does not fit the code any more: disconnect no longer has exactly one loop')
         unit = self
 
         def inv(I_, fr):
@@ -206,8 +206,13 @@ class DisconnectFlush(Unit):
             unit.written = unit.written + 1
             log.append('write')
         I.override(raw(Connection, '_write_packet'), _write_packet, kind='contract')
-        sock = types.SimpleNamespace(shutdown=lambda how: log.append('shutdown'), close=lambda: log.append('close'))
-        fobj = types.SimpleNamespace(close=lambda: log.append('file.close'))
+        depth_at = {}
+
+        def ev(name):
+            depth_at[name] = lock.depth
+            log.append(name)
+        sock = types.SimpleNamespace(shutdown=lambda how: ev('shutdown'), close=lambda: ev('close'))
+        fobj = types.SimpleNamespace(close=lambda: ev('file.close'))
         conn = object.__new__(Connection)
         conn.__dict__.update(_write_lock=lock, _outgoing_packet_queue=self.queue, socket=sock, file_object=fobj, connected=True,
                              networking_thread=types.SimpleNamespace(interrupt=False), new_networking_thread=None)
@@ -224,17 +229,93 @@ class DisconnectFlush(Unit):
                     note='everything queued before the disconnect has been written when the socket is closed')
             E.check('flush.count', unit.written == self.n0)
         E.check('close.after-flush', log[-3:] == ['shutdown', 'file.close', 'close'] and 'write' not in log[-3:])
+        E.check('close.under-lock', all(depth_at.get(k, 0) >= 1 for k in ('shutdown', 'file.close', 'close')),
+                note='the teardown happens with the write lock still held: no forced write of another thread can land between '
+                     'the flush (or the decision to send nothing) and the close')
         E.check('lock.released', lock.depth == 0)
         return None
 
     def replay(self, model, label):
-        return replay_flush()
+        rp = replay_flush()
+        return rp if rp['confirmed'] else replay_close_race()
 
     def bounded(self, rng, tier):
         rp = replay_flush()
-        return dict(name='C12.flush.concrete', evaluations=rp['n'], bound='queues of 0, 1, 5, 400 packets, immediate and not, '
-                    'on the real Connection', failures=[dict(call=rp['call'], observed=rp['observed'], witness='flush')]
-                    if rp['confirmed'] else [])
+        n = rp['n']
+        if not rp['confirmed']:
+            rp = replay_close_race()
+            n += 4
+        return dict(name='C12.flush.concrete', evaluations=n, bound='queues of 0, 1, 5, 400 packets, immediate and not, '
+                    'on the real Connection; 4 directed schedules of a forced write racing with the teardown',
+                    failures=[dict(call=rp['call'], observed=rp['observed'], witness='flush')] if rp['confirmed'] else [])
+
+
+def replay_close_race():
+    """Directed schedule: another thread attempts a forced write while disconnect() is tearing the socket down."""
+    for immediate in (True, False):
+        for hook in ('before-shutdown', 'in-shutdown'):
+            log, started = [], []
+            conn = object.__new__(Connection)
+            lock = threading.RLock()
+            conn.context = ConnectionContext(protocol_version=757)
+            conn._outgoing_packet_queue = deque()
+            conn.early_outgoing_packet_listeners, conn.outgoing_packet_listeners = [], []
+            conn.options = types.SimpleNamespace(compression_enabled=False, compression_threshold=-1)
+            conn.connected = True
+            conn.networking_thread, conn.new_networking_thread = None, None
+
+            def intruder():
+                p = c01._Raw()
+                p.id, p.raw = 1, b'late'
+                try:
+                    conn.write_packet(p, force=True)
+                except Exception:
+                    pass                       # writing to a closed connection may fail; it must not reach the wire
+
+            def intrude():
+                if not started:
+                    started.append(threading.Thread(target=intruder))
+                    started[0].start()
+                    started[0].join(0.25)
+
+            class Lock(object):
+                # the lock the code under test uses, with a hook when it is finally released by disconnect()
+                def __enter__(self):
+                    lock.acquire()
+
+                def __exit__(self, *a):
+                    lock.release()
+                    if hook == 'before-shutdown' and threading.current_thread() is main and 'disconnecting' in log:
+                        intrude()
+
+                acquire, release = lock.acquire, lock.release
+            main = threading.current_thread()
+
+            class Sock(object):
+                def send(self, d):
+                    log.append(('send', bytes(d)))
+
+                def shutdown(self, how):
+                    if hook == 'in-shutdown':
+                        intrude()
+                    log.append('shutdown')
+
+                def close(self):
+                    log.append('close')
+            conn._write_lock = Lock()
+            conn.socket = Sock()
+            conn.file_object = types.SimpleNamespace(close=lambda: log.append('file.close'))
+            log.append('disconnecting')
+            k, v = native_call(conn.disconnect, immediate)
+            if started:
+                started[0].join(5)
+            sends = [e for e in log if isinstance(e, tuple)]
+            if sends:
+                return dict(confirmed=True, call='disconnect(immediate=%r) on thread T1; thread T2 calls write_packet(force=True) %s' %
+                            (immediate, 'right after T1 leaves the locked region' if hook == 'before-shutdown' else 'while T1 is in socket.shutdown'),
+                            observed='%d byte(s) were sent on the socket after the disconnect had begun (events: %r)' %
+                                     (sum(len(e[1]) for e in sends), [e if isinstance(e, str) else 'send' for e in log]))
+    return dict(confirmed=False, call='forced write racing with disconnect teardown', observed='nothing reaches the socket')
 
 
 def replay_flush():
